@@ -383,18 +383,18 @@ func (s *Server) publishDiagnosticsVersion(ctx context.Context, docURI protocol.
 	}
 
 	settings := s.getSettings()
-	if !settings.Features.Diagnostics {
-		_ = s.client.PublishDiagnostics(ctx, &protocol.PublishDiagnosticsParams{
-			URI:         docURI,
-			Diagnostics: []protocol.Diagnostic{},
-		})
-		return
-	}
-
 	path := uriToPath(docURI)
 	if path == "" {
+		if !settings.Features.Diagnostics {
+			_ = s.client.PublishDiagnostics(ctx, &protocol.PublishDiagnosticsParams{
+				URI:         docURI,
+				Diagnostics: []protocol.Diagnostic{},
+			})
+		}
 		return
 	}
+	// the include tree is what hover, completion, references and rename answer
+	// from: it is resolved and recorded whether or not diagnostics are shown
 	resolved, loadErrors := s.loader.LoadFromContent(path, content)
 	// only the analysis of the document's current content may record its result
 	s.docMu.Lock()
@@ -407,7 +407,12 @@ func (s *Server) publishDiagnosticsVersion(ctx context.Context, docURI protocol.
 	s.payeeTemplatesCache.Delete(docURI)
 	s.docMu.Unlock()
 
-	diagnostics := s.analyze(content, resolved)
+	var diagnostics []protocol.Diagnostic
+	if settings.Features.Diagnostics {
+		diagnostics = s.analyze(content, resolved)
+	} else {
+		diagnostics, loadErrors = []protocol.Diagnostic{}, nil
+	}
 
 	for _, err := range loadErrors {
 		severity := protocol.DiagnosticSeverityError
